@@ -1,0 +1,1 @@
+//! Verification doors: net (cfg(trusttunnel_verif) only)
